@@ -35,7 +35,7 @@ class G:
             return NULL
         if c == "list":
             return ("list", self.kind(depth - 1))
-        return ("ctx", tuple((k, self.kind(depth - 1)) for k in s.sample(KEYS, s.int(1, 3))))
+        return ("ctx", tuple((k, self.kind(depth - 1)) for k in s.sample(KEYS, s.int(1, 4))))
 
     def value(self, k):
         """wire value of kind k"""
